@@ -72,9 +72,18 @@ where
         // Now write it to file
 
         // First get all the positions
-        let curr_file_pos = self.destination.stream_position()?;
         let idx_pos = self.section.location_of_index(self.curr_idx);
         self.curr_idx += 1;
+
+        // A slot that has not been flushed yet reaches the destination together with the rest
+        // of the image at the next flush. Writing it now would put bytes into the destination
+        // beyond what it holds of the image.
+        if u64::from(idx_pos.rva) + u64::from(idx_pos.data_size)
+            > self.last_position_written_to_file
+        {
+            return Ok(());
+        }
+        let curr_file_pos = self.destination.stream_position()?;
 
         self.destination.seek(std::io::SeekFrom::Start(
             self.destination_start_offset + idx_pos.rva as u64,
